@@ -508,12 +508,17 @@ func (fr *FuncRun) enterLoop(f *Frame, head *ssa.BasicBlock, body map[*ssa.Basic
 		}
 	}
 	ws = carried
+	// goroutines started by earlier iterations run alongside the generic one
+	for _, bs := range lastBack {
+		cur.spawned = unionWS(cur.spawned, bs.spawned)
+	}
 	// 3. havoc the write set
 	pre := cur.clone()
 	topAtEntry := fr.allocTop
-	newTop := fr.fresh(sInt, "alloctop")
-	fr.emit(fmt.Sprintf("(assert (>= %s %s))", newTop, topAtEntry))
-	fr.allocTop = newTop
+	// (the objects allocated by earlier iterations lie between the mark at loop entry and the mark at the loop head)
+	fr.allocTop = topAtEntry
+	fr.bumpAllocTop()
+	newTop := fr.allocTop
 	marker := fr.nfresh
 	var hs []string
 	for h := range ws.heaps {
